@@ -118,6 +118,10 @@ JudgeCall(c, dev0, b, focus) ==
   ELSE IF c.raised /\ F("C15") /\ cl.m = "connect" THEN
        R(IF Unsupported(dev) THEN "connect.unsupported_device_returns_false_with_error" ELSE "skip", b)
   ELSE IF c.raised /\ F("C05") /\ cl.m # "connect" THEN R("fault.public_method_raises", b)
+  \* C16: a request that raises although the board answered everything it was asked as documented has not made its round trip
+  ELSE IF c.raised /\ F("C16") /\ ~c.dead_before /\ cl.m \notin Special
+          /\ (\A k \in 1..Len(ops) : ~ops[k].raised /\ (ops[k].k = "r" => ops[k].kind = "conf"))
+       THEN R("board.round_trip_fails_against_conforming_board", b)
   ELSE IF c.raised THEN R(IF F("C04") /\ c.dead_before /\ cl.m \notin Special THEN "latch.dead_call_raises" ELSE "skip", b)
   ELSE IF F("C04") /\ c.err_before /\ ~c.err_same THEN R("latch.recorded_error_replaced", b)
   ELSE IF cl.m = "connect" THEN
@@ -147,8 +151,11 @@ JudgeCall(c, dev0, b, focus) ==
        LET b2 == OpsBoard(ops, 1, b)
            okc == ~c.err_set /\ (FailSet(cl.m) = {Void} \/ RetOf(c) \notin FailSet(cl.m))
            \* the board answered every request of this call as documented (no injected fault, no timeout)
-           clean == \A k \in 1..Len(ops) : ~ops[k].raised /\ (ops[k].k = "r" => ops[k].kind = "conf") IN
-       IF clean /\ c.err_set THEN R("board.round_trip_fails_against_conforming_board", b2)
+           clean == \A k \in 1..Len(ops) : ~ops[k].raised /\ (ops[k].k = "r" => ops[k].kind = "conf")
+           \* ... or reports failure (the methods whose failure value is distinct from every success value)
+           fails == FailSet(cl.m) # {Void} /\ RetOf(c) \in FailSet(cl.m)
+                    /\ cl.m \in {"var_write_int32", "var_read_int32", "var_write", "var_read", "write_nickname", "motors_query_enabled"} IN
+       IF clean /\ (c.err_set \/ fails) THEN R("board.round_trip_fails_against_conforming_board", b2)
        ELSE IF okc /\ BoardClause(cl, c, b2, <<>>) # "ok" THEN R(BoardClause(cl, c, b2, <<>>), b2) ELSE R("ok", b2)
   ELSE LET w == Walk(cl, Program(cl), ops, b, <<>>, FALSE, focus) IN
        IF w.v # "ok" THEN R(w.v, w.board)
